@@ -292,6 +292,14 @@ def run(sc, callbacks=(), model=None, therm=None, temperature_entry="setter", ex
             # the caller reuses its own composition array for something else between two solve calls (next alloy of a sweep):
             # the running model must keep the alloy content it was started with
             model._vk_x0_ref *= 1.25
+        model._vk_call = icall
+        if icall > 0 and sc.get("VmB_calls") and len(sc["VmB_calls"]) >= icall and sc["VmB_calls"][icall - 1]:
+            # the molar volume of a precipitate phase set again between two solve calls (a parameter study continued on the same model)
+            for pidx, spec in sc["VmB_calls"][icall - 1].items():
+                model.setVolumeBeta(spec[0], spec[1], spec[2], phase=sc["phases"][int(pidx)]["name"])
+        if icall > 0 and sc.get("T_calls") and len(sc["T_calls"]) >= icall and sc["T_calls"][icall - 1] is not None:
+            # a new schedule handed to the setter between two solve calls (two-step ageing done by hand): in force from this call on
+            model.setTemperature(*make_temperature(sc["T_calls"][icall - 1]))
         try:
             model.solve(dur, solverType=tap, minDtFrac=sc.get("minDtFrac", 1e-8), maxDtFrac=sc.get("maxDtFrac", 1))
             completed_calls += 1
